@@ -55,8 +55,9 @@ impl Format for Blp {
         let ext = &seed.extra;
         let parsed = if seed.aux == 1 {
             // BLP0: mip levels live in external files, handed over by the callback
+            let p = rec.call("blp::parse_blp_with_externals", || parse_blp_with_externals(input, |i| Ok(ext.get(i).map(|v| v.as_slice()))));
             let _ = rec.call("blp::parse_blp", || parse_blp(input));
-            rec.call("blp::parse_blp_with_externals", || parse_blp_with_externals(input, |i| Ok(ext.get(i).map(|v| v.as_slice()))))
+            p
         } else {
             let _ = rec.call("blp::parse_blp_with_externals", || parse_blp_with_externals(input, |i| Ok(ext.get(i).map(|v| v.as_slice()))));
             rec.call("blp::parse_blp", || parse_blp(input))
@@ -70,8 +71,12 @@ impl Format for Blp {
                 let _ = im.header.mipmaps_count();
                 let _ = im.header.internal_mipmaps();
             });
+            // level 0, level 1, the last level and one past the end
             let n = im.image_count().min(17);
-            for lvl in 0..=n {
+            let mut lv = vec![0, 1, n.saturating_sub(1), n];
+            lv.sort();
+            lv.dedup();
+            for lvl in lv {
                 let ep = if lvl == 0 { "blp::blp_to_image[level 0]" } else { "blp::blp_to_image[level >= 1]" };
                 let _ = rec.call(ep, || blp_to_image(&im, lvl));
             }
